@@ -111,7 +111,7 @@ def stubbed(rkmod, tr, real_helpers=(), real_dense=True, real_refine=True, auton
         for r in range(7):
             for d in range(dim):
                 K[r, d] = opaque('S_K%d_%d' % (r, d), *a)
-        tr.steps.append({'kind': 'rk45', 't': t, 'y': y.copy(), 'h': h, 'yh': yh, 'err': err})
+        tr.steps.append({'kind': 'rk45', 't': t, 'y': y.copy(), 'h': h, 'yh': yh, 'err': err, 'K': K})
         return yh, yh - err, err, K
 
     def k45_ham(t, y, h, A, B_HIGH, C, E, jac_H, clmo_H, n_dof):
@@ -129,7 +129,7 @@ def stubbed(rkmod, tr, real_helpers=(), real_dense=True, real_refine=True, auton
         for r in range(s + 1):
             for d in range(dim):
                 K[r, d] = opaque('S_K%d_%d' % (r, d), *a)
-        tr.steps.append({'kind': 'dop853', 't': t, 'y': y.copy(), 'h': h, 'yh': yh, 'err5': e5, 'err3': e3})
+        tr.steps.append({'kind': 'dop853', 't': t, 'y': y.copy(), 'h': h, 'yh': yh, 'err5': e5, 'err3': e3, 'K': K})
         return yh, yh - ev, ev, e5, e3, K
 
     def k853_ham(t, y, h, A, B_HIGH, C, E5, E3, jac_H, clmo_H, n_dof):
